@@ -32,7 +32,11 @@ CHECKS_ALL = {
                 text="Bounded: scale/center/standardize contracts (zero mean, unit std for ddof, replay of recorded statistics) on all vectors over {-2..2}^n, n<=4 plus seeded vectors of length 2..50 and magnitude 1e-6..1e6; poly judged against exact Fraction Gram-Schmidt; TRANSFORMS entries against the math module and as inverse pairs.",
                 note="bounded stand-in; float tolerance 32*n*eps*kappa (kappa = exact cancellation factor); depends on the exp10 fix commit",
                 technique="runtime contracts on the real functions with exact-arithmetic oracles over enumerated vectors (bounded stand-in)"),
-    "C19": dict(category="other", enabled=False,
+    "C17": dict(category="exploration", enabled=True,
+                text="Bounded: required_variables sufficiency (materialization succeeds on data restricted to exactly the reported columns) and necessity (dropping any one raises FactorEvaluationError) before and after materialization on 19 formula templates x column pairs plus seeded random formulas; name-resolution order data > context > transforms decided exhaustively on a grid where every layer supplies different numbers (the origin is read off the matrix and compared with variables_by_source); '.' expansion against data column order on 3 entry points. The LayeredMapping lookup order itself is proved under C19.",
+                note="bounded stand-in; oracle restrictions from DESIGN.md section 5 (context names are reported until materialization resolves them; Q('name') lookups excluded); known findings D21, D22, N1",
+                technique="runtime contracts on the real functions over enumerated formulas/contexts (bounded stand-in); LayeredMapping.__getitem__ first-layer-wins contract discharged deductively (see C19)"),
+    "C19": dict(category="other", enabled=True,
                 text="Hybrid. Deductive: LayeredMapping.__getitem__ (first layer containing the key, top first; KeyError iff no layer has it), __setitem__/__delitem__ (writes confined to the private layer, every other key and every supplied layer unchanged: frame obligations), __iter__ (each key of the merged view exactly once: nested-loop invariants over a recursive spec function) discharged for all layer stacks. Bounded: Structured map/flatten/simplify/update/merge laws on random nestings; LayeredMapping and SimpleFormula against list/dict models under all operation sequences of length <=2 and random ones <=8.",
                 note="supplied layers modelled as finite mappings; Structured is bounded only (recursive datatype out of the verifier's reach)",
                 technique="contract-based deductive verification (pyvc VCs + z3) for LayeredMapping; runtime-contract bounded stand-in for Structured/SimpleFormula"),
